@@ -58,7 +58,11 @@ func report(kind string, spec msgSpec, lazy bool, b batchDesc, detail string, ex
 	for k, v := range extra {
 		c[k] = v
 	}
-	rep.Violation(kind+"-"+spec.class()+lazyTag(lazy), detail, c)
+	key := kind + "-" + spec.class() + lazyTag(lazy)
+	if spec.class() == "rcode-other" {
+		key = kind + lazyTag(lazy)
+	}
+	rep.Violation(key, detail, c)
 }
 
 // ---- shared statistics that evid has no primitive for ----
@@ -139,6 +143,9 @@ func account(phase string, b batchDesc, spec msgSpec, lazy bool, v verdict, r re
 		return
 	}
 	rep.Count(phase+":"+v.Outcome, 1)
+	if r.Err != "" {
+		rep.Count(phase+":exec_returned_error", 1)
+	}
 	if r.Reached != 1 {
 		rep.Count(phase+":terminal_reached_not_once", 1)
 	}
@@ -431,17 +438,19 @@ func runAdmission(b batchDesc) {
 			return
 		}
 	}
+	// internal expiry is read back through /dump; if the dump itself fails the
+	// Exec-level oracle (second query) still runs and the run is marked inconclusive
+	dumpOK := true
+	var byName map[string]*dumpEntry
 	dl, err := env.dump()
+	if err == nil {
+		byName, err = dumpByName(dl)
+	}
 	if err != nil {
 		rep.Inconclusive("admission batch %d: %v", b.Idx, err)
-		return
+		dumpOK = false
 	}
 	dumpT := nowNs()
-	byName, err := dumpByName(dl)
-	if err != nil {
-		rep.Inconclusive("admission batch %d: %v", b.Idx, err)
-		return
-	}
 	for _, e := range ents {
 		storable, open, L, why := e.Spec.admission()
 		C := L
@@ -455,6 +464,7 @@ func runAdmission(b batchDesc) {
 		storeHiS := floorDiv(e.r1.T1+slackNs, sec)
 		storeLoS := floorDiv(e.r1.T0-slackNs, sec)
 		switch {
+		case !dumpOK:
 		case !storable && !open:
 			if de != nil {
 				report("stored-"+why, e.Spec, b.Lazy, b, fmt.Sprintf("/dump holds an entry for a reply that must never be stored (%s): msg expiry %d, entry expiry %d", why, de.GetMsgExpirationTime(), de.GetCacheExpirationTime()), wit)
@@ -1021,7 +1031,7 @@ func main() {
 
 	rng := rand.New(rand.NewSource(rep.Seed))
 	var pool []batchDesc // CPU-bound batches
-	nAging, nAdm := rep.Pick(12, 1100), rep.Pick(8, 500)
+	nAging, nAdm := rep.Pick(48, 1600), rep.Pick(24, 700)
 	for i := 0; i < nAging; i++ {
 		pool = append(pool, batchDesc{Phase: "aging", Seed: rng.Int63(), Lazy: i%2 == 1, N: 256, Idx: i})
 	}
@@ -1029,7 +1039,7 @@ func main() {
 		pool = append(pool, batchDesc{Phase: "admission", Seed: rng.Int63(), Lazy: i%2 == 1, N: 256, Idx: i})
 	}
 	var timed [][]batchDesc // rounds of real-time batches, each round runs concurrently
-	rounds, perRound := rep.Pick(1, 14), rep.Pick(4, 6)
+	rounds, perRound := rep.Pick(2, 24), rep.Pick(4, 6)
 	for r := 0; r < rounds; r++ {
 		var round []batchDesc
 		for i := 0; i < perRound; i++ {
@@ -1040,7 +1050,7 @@ func main() {
 		timed = append(timed, round)
 	}
 	var bursts []batchDesc
-	for i := 0; i < rep.Pick(30, 400); i++ {
+	for i := 0; i < rep.Pick(60, 600); i++ {
 		bursts = append(bursts, batchDesc{Phase: "burst", Seed: rng.Int63(), Lazy: true, Procs: []int{1, 2, 16}[i%3], Idx: i})
 	}
 
